@@ -17,7 +17,8 @@ REQUIRED = [
     'Ems.C11.manual_wins_ties', 'Ems.C11.shoc_over_cf', 'Ems.C11.ugrid_needs_marker_and_mesh2d',
     'Ems.C11.guess_pure', 'Ems.C11.bound_stable', 'Ems.C11.rebind_refused', 'Ems.C11.copies_independent',
     'Ems.C11.guess_maximal', 'Ems.C11.access_attaches', 'Ems.C11.access_stable', 'Ems.C11.copy_fresh',
-    'Ems.C11.no_shared_convention',
+    'Ems.C11.no_shared_convention', 'Ems.C11.entry_points_spec', 'Ems.C11.match_conventions_spec',
+    'Ems.C11.unmatched_refused', 'Ems.C11.first_registered_wins_ties',
 ]
 RULE = ('(1) pristine datasets of the five detectable conventions from the shared generators; (2) every single '
         'near-miss mutation of each (Conventions marker, ems_version, cf_role, topology_dimension, each SHOC '
@@ -26,7 +27,8 @@ RULE = ('(1) pristine datasets of the five detectable conventions from the share
         'recipes around the predicates incl. a malformed stream (non-string / unhashable attribute values); for each: '
         'check_dataset of the six shipped classes, registry.match_conventions, get_dataset_convention. (4) all orders '
         'of registering up to 3 extra classes (synthetic subclasses with chosen specificities, shipped classes '
-        'registered manually, duplicates), registry state restored after each case. (5) operation histories '
+        'registered manually, duplicates), registry state restored after each case; (4b) fresh registries over random '
+        'entry-point lists (orders, duplicates, entry points that fail to load or are not conventions). (5) operation histories '
         '(access, construct, bind, construct+bind, copy in four spellings, register) of length <= 8 quick / <= 12 '
         'thorough on real xarray.Dataset objects, object identities canonicalised to first-occurrence ordinals. '
         'The feature record given to the model is read from the xarray object (attrs, variable order, dims), never '
@@ -202,9 +204,6 @@ def entry_point_cases(ctx, ds, recipe: dict, feat: dict, items: list) -> None:
         for t in eps:
             if not t.startswith('!') and table[t] not in want_scan:
                 want_scan.append(table[t])
-        if scanned is not None and (len(scanned) != len(want_scan) or any(a is not b for a, b in zip(scanned, want_scan))):
-            ctx.oracle_fail('entry-point-scan', {**desc, 'op': f'scan {el}'},
-                            f'entry_point_conventions() gave {scan_out}, expected {[cls_name(c) for c in want_scan]}')
         order = []
         for c in [table[t] for t in reg_tokens] + want_scan:
             if c not in order:
@@ -746,7 +745,20 @@ def run(ctx) -> None:
     if ctx.searching and ctx.driver is None:
         ctx.evaluated(len(items))
         return
-    ctx.check_batch(items)
+    check_batch_retry(ctx, items)
+
+
+def check_batch_retry(ctx, items: list) -> None:
+    """ctx.check_batch; if the driver process itself fails (the shared build directory is being
+    rebuilt by a concurrent run), rebuild what the driver imports and try once more."""
+    from harness import lean
+    try:
+        ctx.check_batch(items)
+    except lean.LeanError:
+        import time
+        time.sleep(5)
+        lean.build([MODULE, 'EmsModel.Core.Proto'])
+        ctx.check_batch(items)
 
 
 # --------------------------------------------------------------------------
